@@ -19,6 +19,12 @@ CHECKS = {
         note="Trusted: CPython ast, Fraction arithmetic, the checker. Assumed: frames on the step lattice; time2step exact there (C13).",
         technique="static analysis: inductive invariant checked by abstract interpretation of each path (rational normal forms) + dominance of file selection over reads + typestate SORTED",
     ),
+    "C04": dict(
+        level="other",
+        text="Decides necessary structural clauses of release accounting: window filters are inclusive at the start and mirrored; times / steps / _B are computed after the last filter, element-wise and order-compatible under tabulated pandas order semantics; update releases iff the current step is a release step and __next__ advances the cursor exactly once on every returning path; rows are repeated by their own mult column; lon/lat pair with X/Y; the continuous pipeline is ticks anchored at the first file time, forward fill, explode; every pandas keyword used exists in the installed pandas (inspect.signature). pandas' run-time semantics are not decided.",
+        note="Trusted: pandas order semantics table (DESIGN A.4); inspect.signature of the installed pandas; CPython ast.",
+        technique="static analysis: typestate/ordering of the release pipeline + order-class table for parallel sequences + path enumeration of the cursor + library-signature conformance",
+    ),
     "C05": dict(
         level="proof",
         text="Induction step of the State invariant (equal lengths, pid strictly increasing, max(pid) < npid, npid monotone) for every operation in ladim/ that can touch the state: writers of pid/npid enumerated over all modules; State.append evaluated abstractly and its post-state compared with pid ++ arange(npid, npid+n), npid+n, var ++ n values; compactify filters exactly the instance variables with one pre-bound alive mask; every other store is an element-wise function of the current array; output applies no permutation. All obligations are enumerated and discharged.",
@@ -30,6 +36,18 @@ CHECKS = {
         text="Decides the indexing discipline of the output, not value equality: Output.write is evaluated abstractly per layout and per outcome of the file-finished tests; every netCDF store (variable, index, value) and the post-state of the four counters are compared with the contiguous-ragged-array layout; dense writes must mask both sides with alive; particle-variable extent is the release counter; time value/units agree; reader and documentation formulas agree with the writer.",
         note="Trusted: netCDF4 slice assignment on unlimited dimensions; CPython ast; the checker. Not decided: encoding precision, library behaviour.",
         technique="static analysis: abstract interpretation of Output.write (symbolic cursors) + table agreement writer/reader/doc snippet",
+    ),
+    "C07": dict(
+        level="other",
+        text="Decides the schedule arithmetic: the write trigger is step % P == 0 with P from the positive period; from the initial step, the clock increment, the main loop's trip count, the gate step >= 0 and the trigger a closed form for the number of writes is derived (cold ceil(N/P), warm floor(N/P)) and compared with the expression assigned to num_records after counting rewrites under the lattice assumption; roll-over sequence, file numbering and main-loop shape are checked. NetCDF library behaviour is not decided.",
+        note="Trusted: counting rewrites (DESIGN A.3); duration = N*dt, period = P*dt; CPython ast, re._parser.",
+        technique="static analysis: compiler-style trip-count analysis with floor/ceil rewriting + abstract evaluation of the roll-over",
+    ),
+    "C08": dict(
+        level="other",
+        text="Decides wiring obligations of a restart, not equality of two runs: restored variable set and slices agree with the writer, missing values stop the run, the restored release counter must equal the writer's counter (one known finding), configure_v2's warm block sets start = last record time / release.warm_start_file / variables / skip_initial, the catch-up step equals the step protocol minus clock and output, start-time release rows are excluded strictly, file numbering continues, time-typed variables invert the writer's unit conversion.",
+        note="Trusted: the warm-start file was written by this model; CPython ast. Known finding F7 (npid = max(pid on file)+1) is listed in known_findings.json.",
+        technique="static analysis: writer/reader table agreement + provenance of the restored counter + event-word comparison of the catch-up step",
     ),
     "C09": dict(
         level="proof",
@@ -48,6 +66,12 @@ CHECKS = {
         text="Decides structural clauses of independence: per-particle caches of the forcing object are not used across a length-changing operation on any path of Model.update / the warm block (one known finding); kernels index per-particle arrays by the loop variable only; no cross-particle reduction on the numeric update path; the gridded fields evolve independently of the particle list; clock, glob, RNG and set-iteration sites are enumerated and confined; per-step modules read the clock through step/dt only. Bit-for-bit equality of paired runs is not decided.",
         note="Trusted: role-typed call resolution; CPython ast. Known finding F8 (compactify between force.update and tracker.update) is listed in known_findings.json.",
         technique="static analysis: effect summaries (LEN-CHANGE / CACHE-DEF / CACHE-USE) over the resolved call graph + per-index independence lint + control-dependence of field stores",
+    ),
+    "C15": dict(
+        level="proof",
+        text="Interval proof in a symbolic-interval domain (h > 0 symbolic): with Z0 in [0, h] and total vertical displacement in (-h, h) the value Tracker.update stores as Z lies in [0, h] for every switch combination; the masked reflection statements are interpreted with refinement of the compared variable so their formulas and masks are part of the proof; h is the depth at the step-start position; with both switches off Z is not written. All obligations discharged.",
+        note="Trusted: interval transfer functions (DESIGN A.2); numpy masked assignment is element-wise; CPython ast. Premise of the property: |displacement| < h.",
+        technique="static analysis: abstract interpretation in a symbolic-interval domain with mask refinement",
     ),
     "C16": dict(
         level="other",
@@ -78,6 +102,18 @@ CHECKS = {
         text="Decides the second-moment algebra and the independence structure, not the sampled distribution: with each rng.normal call replaced by a unit-variance atom the squared coefficient of the draw in the stored position equals 2*D*dt/dx^2 (2*Dz*dt), there is no constant term, U/V/W use distinct per-call draws of the current particle count, and no draw is made when both coefficients are zero.",
         note="Trusted: numpy Generator.normal(size=n) yields n independent N(0,1); CPython ast; the checker. Not decided: sample statistics, land interaction.",
         technique="static analysis: abstract interpretation (rational normal forms with half-integer monomial powers) + control-dependence of RNG uses",
+    ),
+    "C17": dict(
+        level="proof",
+        text="Symbolic interval proof: for every subscript reached from the model's entry points (Forcing.update, force_particles, Tracker.update, EF/RK2/RK4 -> velocity -> sample3DUV -> sample3D -> trilinear, z2s -> z2s_kernel, Grid.metric/depth/atsea) and every axis, 0 <= index <= length-1; shapes, slices, valid region, stage margins, clip's effect and the level range are derived from the source. ~400 obligations, all discharged under the stated assumptions A1-A3; the unenforced assumption A3 (>= 2 levels) is a known finding.",
+        note="Trusted: interval transfer functions; numba does not check bounds; CPython ast. Assumed: A1 state positions valid (C09), A2 forcing and grid level counts agree, A3 >= 2 levels (known finding F14), lemma L1 from C09 R09.1.",
+        technique="static analysis: abstract interpretation in a symbolic-interval domain over the resolved call chains (array-bounds proof)",
+    ),
+    "C18": dict(
+        level="other",
+        text="Decides table agreement: every key the two normalisers write is a constructor parameter of the default class of its role; required parameters and the sections Model.__init__ reads are produced; optional sections are defaulted and optional keys never hard-required; YAML, TOML and v1 converge on one configuration object; the wildcard default of the grid file is the sorted first match in both versions; the v1 vocabulary maps to v2 keys of the same meaning. Equality of run outputs is not decided.",
+        note="Trusted: constructor signatures read from the source; yaml/tomli yield equal dicts for equal content; CPython ast.",
+        technique="static analysis: table agreement (config keys vs constructor signatures) + optional-discipline contradiction rule",
     ),
     "C19": dict(
         level="proof",
